@@ -50,8 +50,8 @@ class JumpWriteHandler(AbstractWriteHandler):
         op: SsbLabelJump = self.start_vertex["op"]
         # A branch or case op that no if or switch was built from can't be written as a jump.
         assert op.root.op_code.name == OP_JUMP, f"{op.root.op_code.name} is not part of any if or switch."
-        # TODO: Writing this source map entry may be confusing, if no jump is written next (by the label handler)...
-        self.decompiler.source_map_add_opcode(op.offset)
+        # The source map entry is written together with the jump statement, if the label handler writes one next.
+        self.decompiler.jump_op_offset_waiting_for_stmnt = op.offset
         # Nothing to do, this is dealt with, when processing the label after this
         # either we print a jump there, or we just proceed.
         exits = self.start_vertex.out_edges()
